@@ -42,6 +42,9 @@ CHECKS = {
  "C13": dict(ref="4 C13", cat="fault_enumeration", technique="exhaustive single-fault enumeration over generated mutating workloads with read-back oracle after every successful flush",
    text="For generated mutating workloads every position k of the underlying write/seek/flush sequence gets a run with that call failing; the API call in progress must return Err, nothing may panic or hang afterwards, and whenever Stream::flush returns Ok (first try or retry) a fresh handle must read back every byte accepted by earlier writes on that handle.",
    note="Exhaustive over single fault positions per workload; workloads are sampled; faults inside Drop are exempt as documented."),
+ "C14": dict(ref="4 C14, 2.7", technique="schedule-controlled concurrency testing: generated thread scripts x generated schedules under a deterministic scheduler over a lock-observer hook, with a lock-discipline invariant and a model-based linearisability check",
+   text="Reader-thread scripts, a stream-I/O script and a schedule are generated; real threads run one at a time under a scheduler that owns every lock event (hook behind cargo feature verif-hooks) and models std's writer-preferring RwLock, so a deadlock is decided without any clock and re-entrant acquisition is detected independently of the schedule (the scheduler then constructs the deadlocking schedule). Reader results are compared with the model at I/O call boundaries.",
+   note="Schedules are sampled; lock policy is the modelled one (Linux/std). Hook: instrumented RwLock wrapper, additive, feature-gated."),
  "C15": dict(ref="4 C15", technique="metamorphic property testing: repeated net-zero cycles, file size must not change from repetition 2 on",
    text="Prefix histories followed by 7 repetitions of generated cycles that the model proves net-zero; the image length after repetition 2 must equal the length after every later repetition. Growth that settles because a never-shrunk container chain first grew in repetition 2 is a listed known finding; growth that goes on is a violation.",
    note="Known findings listed in known_findings.txt (C15). Trusted: model for the net-zero test, parser for chain lengths."),
